@@ -235,13 +235,22 @@ func goDOM(tr xml.TokenReader, cap int) (*indep.Node, error) {
 }
 
 // c15Judge captures target (as the middle child of a wrapper with siblings) and checks (a),(b),(d).
-func c15Judge(e xSpec) (clause, detail string) {
+func c15Judge(e xSpec) (clause, detail string) { return c15JudgeW(e, 0) }
+
+// c15JudgeW: wrap 0 = the wrapper names DAV: through a prefix; wrap 1 = the wrapper declares DAV: as the
+// default namespace, so that a target in no namespace carries xmlns="" (the undeclaration the writer relies on).
+func c15JudgeW(e xSpec, wrap int) (clause, detail string) {
 	defer func() {
 		if p := recover(); p != nil {
 			clause, detail = "panic", fmt.Sprint(p)
 		}
 	}()
 	target := e.doc()
+	if wrap == 1 {
+		var sb strings.Builder
+		e.render(&sb, xScope{def: "DAV:", prefixes: map[string]string{"p": "urn:outer-p"}})
+		target = sb.String()
+	}
 	t0, err := indep.Parse([]byte(target))
 	if err != nil {
 		return "generator-bug", err.Error() + ": " + target
@@ -250,6 +259,9 @@ func c15Judge(e xSpec) (clause, detail string) {
 	// capture inside a larger document; the wrapper binds prefixes p/q to unrelated namespaces on
 	// purpose, so that a captured element must not pick them up
 	wrapper := `<D:prop xmlns:D="DAV:" xmlns:p="urn:outer-p"><D:before>b</D:before>` + target + `<D:after a="1">x<D:n/></D:after></D:prop>`
+	if wrap == 1 {
+		wrapper = `<prop xmlns="DAV:" xmlns:p="urn:outer-p"><before>b</before>` + target + `<after a="1">x<n/></after></prop>`
+	}
 	var prop internal.Prop
 	if err := xml.Unmarshal([]byte(wrapper), &prop); err != nil {
 		return "capture-error", err.Error()
@@ -352,8 +364,10 @@ func c15Class(e xSpec) string {
 }
 
 // shrink: drop children, reset attr/content/ns style while still failing with the same clause
-func c15Shrink(e xSpec, clause string) xSpec {
-	fails := func(x xSpec) bool { c, _ := c15Judge(x); return c == clause }
+func c15Shrink(e xSpec, clause string) xSpec { return c15ShrinkW(e, clause, 0) }
+
+func c15ShrinkW(e xSpec, clause string, wrap int) xSpec {
+	fails := func(x xSpec) bool { c, _ := c15JudgeW(x, wrap); return c == clause }
 	for changed := true; changed; {
 		changed = false
 		var cands []xSpec
@@ -713,6 +727,7 @@ func c15Dump(v interface{}) string {
 }
 
 type c15Case struct {
+	Wrap  int    `json:"wrapper,omitempty"` // 1 = the capturing document declares DAV: as the default namespace
 	Spec  *xSpec `json:"spec,omitempty"`
 	Doc   string `json:"doc,omitempty"`
 	Typed string `json:"typed,omitempty"`
@@ -776,6 +791,14 @@ func init() {
 			e := docs[i]
 			s.Transition()
 			clause, detail := c15Judge(e)
+			wrap := 0
+			if clause == "" || clause == "marshal-in-prop-tree" {
+				// the same tree captured from a document whose default namespace is DAV:
+				s.Transition()
+				if c1, d1 := c15JudgeW(e, 1); c1 != "" {
+					clause, detail, wrap = c1, d1, 1
+				}
+			}
 			s.Clause("capture -> token stream tree, marshal tree, marshal-in-prop tree, siblings")
 			s.Outcome("tree/" + clause)
 			s.Nontrivial(fmt.Sprintf("D/%d", i))
@@ -783,9 +806,13 @@ func init() {
 				s.Sample(map[string]interface{}{"document": e.doc()})
 			}
 			if clause != "" {
-				min := c15Shrink(e, clause)
-				_, detail = c15Judge(min)
-				s.Violate(engine.Violation{Sig: "C15/" + clause + "/" + c15Class(min), Clause: clause, Index: int64(i), Kind: "C15", Case: c15Case{Spec: &min, Doc: min.doc()},
+				min := c15ShrinkW(e, clause, wrap)
+				_, detail = c15JudgeW(min, wrap)
+				cls := c15Class(min)
+				if wrap == 1 {
+					cls += "+wrapper=default-namespace"
+				}
+				s.Violate(engine.Violation{Sig: "C15/" + clause + "/" + cls, Clause: clause, Index: int64(i), Kind: "C15", Case: c15Case{Spec: &min, Doc: min.doc(), Wrap: wrap},
 					Expected: "same namespace-expanded element tree", Observed: detail})
 			}
 		})
@@ -829,7 +856,7 @@ func init() {
 			return false, err.Error()
 		}
 		if c.Spec != nil {
-			clause, detail := c15Judge(*c.Spec)
+			clause, detail := c15JudgeW(*c.Spec, c.Wrap)
 			return clause == "", clause + " " + detail
 		}
 		for _, tc := range c15TypedCases() {
